@@ -123,6 +123,25 @@ pub fn run(o: &Opts) -> i32 {
                             let amount = format!("{} {}", k, utext(&side.unit));
                             let direct = match ev(&format!("{} of ({} {})", other_name, amount, sname)) { Some(QueryReply::Number(n)) => n.raw_value.clone(), Some(QueryReply::Duration(d)) => d.raw.raw_value.clone(), _ => None };
                             let direct = match direct { Some(d) => d, None => continue };
+                            // the same in another base: the numeral listed is the numeral of the conversion asked directly
+                            if k == "2" {
+                                let other_side = if std::ptr::eq(side, &p.input) { &p.output } else { &p.input };
+                                let ut = utext(&other_side.unit);
+                                for base in ["hex", "base 7"] {
+                                    let direct = match ev(&format!("{} of ({} {}) -> {} {}", other_name, amount, sname, base, ut)) { Some(QueryReply::Conversion(c)) => Some((c.value.exact_value.clone(), c.value.approx_value.clone())), _ => None };
+                                    if let (Some(direct), Some(QueryReply::Substance(r))) = (direct, ev(&format!("{} {} -> {} {}", amount, sname, base, ut))) {
+                                        let listed: Vec<_> = r.properties.iter().filter(|x| &x.name == other_name).collect();
+                                        if listed.len() == 1 {
+                                            paths_checked += 1;
+                                            let got = (listed[0].value.exact_value.clone(), listed[0].value.approx_value.clone());
+                                            if got != direct {
+                                                nviol += 1;
+                                                writeln!(orc, "{}", json!({"law": "paths-agree", "query": format!("{} {} -> {} {}", amount, sname, base, ut), "property": other_name, "want": format!("{:?}", direct), "got": format!("{:?}", got)})).unwrap();
+                                            }
+                                        }
+                                    }
+                                }
+                            }
                             if let Some(QueryReply::Substance(r)) = ev(&format!("{} {}", amount, sname)) {
                                 let listed: Vec<_> = r.properties.iter().filter(|x| &x.name == other_name).collect();
                                 if listed.len() == 1 {
